@@ -155,8 +155,8 @@ pub fn conformance(archive: &[u8], source: &[u8], cfg: &ArchCfg, metadata: &BTre
         return Err(format!("metadata: requested {:?} recorded {:?}", metadata.keys().collect::<Vec<_>>(), d.metadata.keys().collect::<Vec<_>>()));
     }
     let want_version = match writer {
-        Writer::Lib => crate_version("/repo/bitar/Cargo.toml"),
-        _ => crate_version("/repo/Cargo.toml"),
+        Writer::Lib => crate_version(&format!("{}/bitar/Cargo.toml", crate::engine::repo_root())),
+        _ => crate_version(&format!("{}/Cargo.toml", crate::engine::repo_root())),
     };
     if d.application_version != want_version {
         return Err(format!("application_version {:?} != crate version {:?}", d.application_version, want_version));
